@@ -1,6 +1,7 @@
 //@unit eeprom_device  props=C14  min_verified=2
 // DeviceEeprom::write_word (src/eeprom/device_provider.rs) extracted whole: the retry loop of one EEPROM word write.
-// The device is `wait_while_busy`, which may report ANY status (or fail) every time it is asked.
+// The device is the SII status register, which may report ANY status (or the read may fail) every time it is polled;
+// wait_while_busy is extracted too (rule R18: the busy poll runs under the EEPROM timeout).
 // Decided: every attempt sends the two data bytes to SiiData (0x0508) and then a write request for exactly `start_word`
 // to SiiControl (0x0502) of this SubDevice; the word is retried only while the device reports a command error and at most
 // 20 times (<= 21 attempts in all, ghost counter); the loop terminates; an exchange error ends the call with that error.
@@ -13,9 +14,18 @@ verus! {
 //@include prelude/opaque_payloads.rs
 //@include prelude/std_specs.rs
 //@include prelude/wire_traits.rs
-//@include prelude/opaque_maindevice.rs
+pub struct LabeledTimeout { pub _p: u8 }
+pub struct Timeouts { pub _p: u8 }
+impl Timeouts {
+    #[verifier::external_body]
+    pub fn eeprom(&self) -> (r: LabeledTimeout) { unimplemented!() }
+    #[verifier::external_body]
+    pub async fn loop_tick(&self) { unimplemented!() }
+}
+pub struct MainDevice { pub timeouts: Timeouts }
 //@include prelude/received_pdu.rs
 //@include prelude/command.rs
+//@include prelude/timeouts.rs
 
 /// the status word of the SII interface as far as write_word looks at it (all other bits arbitrary)
 pub struct SiiControl { pub busy: bool, pub command_error: bool }
@@ -44,6 +54,15 @@ impl EtherCrabWireWrite for [u8; 2] {
 /// "`bytes` were sent with this write command"
 pub uninterp spec fn reg_sent(cmd: Writes, bytes: Seq<u8>) -> bool;
 
+/// "a checked read of the SII control/status register (0x0502) of station `addr` returned `st`"
+pub uninterp spec fn sii_status_read(addr: u16, st: SiiControl) -> bool;
+impl WrappedRead {
+    /// `receive::<SiiControl>` (unit wrapped): ANY status
+    #[verifier::external_body]
+    pub async fn receive_sii(self, maindevice: &MainDevice) -> (r: Result<SiiControl, Error>)
+        ensures r is Ok ==> (match self.command { Reads::Fprd { address, register } => register == 0x0502 ==> sii_status_read(address, r->Ok_0), _ => true })
+    { unimplemented!() }
+}
 impl WrappedWrite {
     /// real body: src/command/writes.rs (unit `wrapped`)
     #[verifier::external_body]
@@ -55,11 +74,18 @@ impl WrappedWrite {
 /*@type file=src/eeprom/device_provider.rs name=DeviceEeprom subst="<'subdevice>=><'a>@@&'subdevice MainDevice<'subdevice>=>&'a MainDevice" @*/
 
 impl<'a> DeviceEeprom<'a> {
-    /// the device: not busy any more, with ANY error flags - or an exchange error / timeout
-    /// (real body: FPRD polling inside `async { loop {..} }.timeout(..)`, not extracted)
-    #[verifier::external_body]
-    pub async fn wait_while_busy(&self) -> (r: Result<SiiControl, Error>)
-    { unimplemented!() }
+/*@fn file=src/eeprom/device_provider.rs impl="impl<'subdevice> DeviceEeprom<'subdevice>" name=wait_while_busy subst=".receive::<SiiControl>(self.maindevice)=>.receive_sii(self.maindevice)" timeouts=1 props=C14,C13 attr="#[verifier::loop_isolation(false)] #[verifier::allow_complex_invariants]" __brk0="Result<SiiControl, Error>"
+    ensures
+        // Ok(status) only for a status this device (FPRD 0x0502 to its own station address) reported with the busy bit clear;
+        // the poll runs under the EEPROM timeout and terminates
+        r is Ok ==> sii_status_read(self.configured_address, r->Ok_0) && !(r->Ok_0).busy,
+@loop 0
+    invariant
+        __dl.active,
+    ensures
+        __brk0 is Ok ==> sii_status_read(self.configured_address, __brk0->Ok_0) && !(__brk0->Ok_0).busy,
+    decreases __dl.left@
+@*/
 
 /*@fn file=src/eeprom/device_provider.rs impl="impl EepromDataProvider for DeviceEeprom<'_>" name=write_word props=C14
     ensures
